@@ -114,3 +114,86 @@ func c04Builtins(r *drv.Run) {
 		r.Inconclusive("coverage floor: windows_of_replace_commands_reading_one_builtin = 0")
 	}
 }
+
+// c04CaptureLists: replace commands whose with-list holds ONLY strings and captures, over bodies in which the same
+// matched text is captured under different names depending on WHERE it stands (an anchor inside one alternative):
+// adjacent matches of equal text with different captures. Under every clause each match of the window carries the
+// replacement made of ITS captures - whichever match the window starts with.
+func c04CaptureLists(r *drv.Run) {
+	a := gen.Lit{S: "a"}
+	capt := func(name string, n ...gen.Node) gen.Node { return gen.Capture{Name: name, Body: gen.Seq{Items: n}} }
+	alt := func(l, rr []gen.Node) []gen.Node {
+		return []gen.Node{gen.Or{Alts: []gen.Node{gen.Seq{Items: l}, gen.Seq{Items: rr}}}}
+	}
+	bodies := [][]gen.Node{
+		alt([]gen.Node{gen.Anchor{Kind: "linestart"}, capt("x", a)}, []gen.Node{capt("y", a)}),
+		alt([]gen.Node{capt("x", a), gen.Anchor{Kind: "lineend"}}, []gen.Node{capt("y", a)}),
+		alt([]gen.Node{gen.Anchor{Kind: "wordstart"}, capt("x", gen.Class{Kind: "letter"})}, []gen.Node{capt("y", gen.Class{Kind: "letter"})}),
+		alt([]gen.Node{gen.Anchor{Kind: "filestart"}, capt("x", a)}, []gen.Node{capt("y", a)}),
+		{gen.Loop{Min: 0, Max: 1, Form: "maybe", Body: gen.Seq{Items: []gen.Node{gen.Anchor{Kind: "linestart"}, capt("x", gen.Seq{})}}}, capt("y", a)},
+	}
+	texts := [][]byte{[]byte("aa"), []byte("aaa\naa"), []byte("a a aa"), []byte("aaaa a\na")}
+	variants := amountVariants()
+	r.Exec(len(bodies), drv.ExecOpts{Batch: 1}, func(i int) *drv.Item {
+		body := bodies[i]
+		base := &gen.Program{Commands: []gen.Command{{Amount: gen.Amount{Kind: "all"}, Body: body}}}
+		srcs := [][]byte{[]byte(gen.RenderProgram(base))}
+		for _, am := range append([]gen.Amount{{Kind: "all"}}, variants...) {
+			q := &gen.Program{Commands: []gen.Command{{Amount: am, Body: body, Replace: true,
+				With: []gen.WithItem{{Kind: "str", S: "<"}, {Kind: "var", S: "x"}, {Kind: "str", S: "|"}, {Kind: "var", S: "y"}, {Kind: "str", S: ">"}}}}}
+			srcs = append(srcs, []byte(gen.RenderProgram(q)))
+		}
+		all := append([]gen.Amount{{Kind: "all"}}, variants...)
+		c := wire.Case{Op: "astcmp", Srcs: srcs, Texts: texts, StepBudget: 60000}
+		return &drv.Item{Case: c, Check: func(res *wire.Result) {
+			if crashOrGuard(r, res, &c, string(srcs[0]), false) {
+				return
+			}
+			if len(res.Compiles) != len(srcs) || len(res.Runs) != len(srcs)*len(texts) {
+				r.Inconclusive("worker returned a short result")
+				return
+			}
+			for k := range res.Compiles {
+				if !res.Compiles[k].OK {
+					r.Inconclusive("fixed program rejected: " + string(srcs[k]) + ": " + res.Compiles[k].Err)
+					return
+				}
+			}
+			for ti, text := range texts {
+				A := &res.Runs[ti]
+				if runTrouble(r, A, &c, string(srcs[0]), text, false) {
+					continue
+				}
+				for vi, am := range all {
+					run := &res.Runs[(vi+1)*len(texts)+ti]
+					vsrc := string(srcs[vi+1])
+					r.Eval(1)
+					if runTrouble(r, run, &c, vsrc, text, false) {
+						continue
+					}
+					want := window(A.Matches, am)
+					what := ""
+					if len(run.Matches) != len(want) {
+						what = fmt.Sprintf("%d matches, expected %d", len(run.Matches), len(want))
+					}
+					for k := 0; what == "" && k < len(want); k++ {
+						m, w := run.Matches[k], want[k]
+						vars := flatVars(w.Vars)
+						exp := "<" + vars["x"] + "|" + vars["y"] + ">"
+						if m.S != w.S || m.E != w.E || m.Num != w.Num {
+							what = fmt.Sprintf("match %d is #%d [%d,%d), expected #%d [%d,%d)", k, m.Num, m.S, m.E, w.Num, w.S, w.E)
+						} else if string(m.Repl) != exp {
+							what = fmt.Sprintf("replacement of match #%d [%d,%d) is %q, its captures say %q", m.Num, m.S, m.E, m.Repl, exp)
+						}
+					}
+					if what != "" {
+						r.Violate(&drv.Violation{Sig: "captures-only-with-list:window:" + am.Kind, Src: vsrc, Text: string(text), Case: &c,
+							Detail: map[string]any{"difference": what, "all": fmtGot(A.Matches), "observed": fmtGot(run.Matches)}})
+						continue
+					}
+					r.Count("windows_of_replace_commands_with_captures_only", 1)
+				}
+			}
+		}}
+	})
+}
